@@ -325,10 +325,45 @@ def run(ctx):
         d.close()
 
 
+def object_level(ctx, pgpy):
+    """(a) related objects (a key, its public twin, copies) carry the armor headers THEY were given, not each other's;
+    (b) a binary export whose last octet is a whitespace value loads through from_blob (bytes and bytearray) to the same object"""
+    import copy
+    from .keys import get
+    with warnings.catch_warnings():
+        warnings.simplefilter('ignore')
+        k = get('ed25519')
+        k.ascii_headers['Comment'] = 'private half'
+        pub = k.pubkey
+        pub.ascii_headers['Version'] = 'twin only'
+        cp = copy.copy(k)
+        cp.ascii_headers['Extra'] = 'copy only'
+        k.ascii_headers['Late'] = 'set after the twin and the copy were made'
+        objs = {'key': (k, {'Comment': 'private half', 'Late': 'set after the twin and the copy were made'}),
+                'twin': (pub, {'Comment': 'private half', 'Version': 'twin only'}),
+                'copy': (cp, {'Comment': 'private half', 'Extra': 'copy only'})}
+        for nm, (o, want) in objs.items():
+            got = outcome(lambda: ref_dearmor(str(o))[1])
+            ctx.case('related-headers', nm, sample={'object': nm, 'headers': repr(got)[:120]})
+            if got[0] != 'ok' or dict(got[1]) != want:
+                ctx.fail('related-headers', 'armor of the %s does not carry exactly the headers supplied to it' % nm,
+                         {'op': 'related', 'object': nm, 'want': want, 'impl': repr(got)[:300]})
+        for v in (0x09, 0x0a, 0x0b, 0x0c, 0x0d, 0x20, 0x00, 0x85, 0xa0):
+            m = pgpy.PGPMessage.new(b'ends in a special octet:' + bytes([v]), compression=pgpy.constants.CompressionAlgorithm.Uncompressed, format='b')
+            blob = bytes(m)
+            for kind, data in (('bytes', blob), ('bytearray', bytearray(blob))):
+                o = outcome(lambda: bytes(pgpy.PGPMessage.from_blob(data)))
+                ctx.case('binary-tail', (v, kind))
+                if o != ('ok', blob):
+                    ctx.fail('binary-tail', 'binary export ending in octet %#04x does not load to the same object through from_blob(%s)' % (v, kind),
+                             {'op': 'tail', 'octet': v, 'kind': kind, 'impl': repr(o)[:200]})
+
+
 def _run(ctx, pgpy, d):
     from pgpy.types import Armorable
     from pgpy.errors import PGPError
     check_pins(ctx, pgpy)
+    object_level(ctx, pgpy)
     Blob = make_blob_class(Armorable)
     rng = ctx.rng
 
